@@ -182,8 +182,31 @@ def klass(path, kind):
     return 'field'
 
 
+_PRIV = re.compile(r'\.(_[A-Za-z0-9_]*)')
+
+
+def new_private(p, a):
+    """p lies under a private attribute (._name) that did not exist in the earlier map a: a cache
+    the operation created, not part of the model's public state"""
+    for m in _PRIV.finditer(p):
+        prefix = p[:m.end()]
+        if m.group(1) in HIDDEN_ATTRS:
+            return False
+        if not any(k == prefix or (k.startswith(prefix) and k[len(prefix)] in '.[{#@/') for k in a):
+            return True
+    return False
+
+
 def diff(a, b):
     """changed locations between two location maps: {path: class}"""
+    ch = _diff(a, b)
+    for p in ch:
+        if p not in a and ch[p] not in ('tricache', 'imgcache') and new_private(p, a):
+            ch[p] = 'newprivate'
+    return ch
+
+
+def _diff(a, b):
     ch = {}
     for p, (k, d) in a.items():
         q = b.get(p)
@@ -199,6 +222,13 @@ def diff(a, b):
 
 def observable(locs):
     return {p: v for p, v in locs.items() if klass(p, v[0]) not in ('tricache', 'imgcache')}
+
+
+def observable_diff(a, b):
+    """differences between two documents that should be equal, private attributes that exist in
+    only one of them (caches) left out"""
+    d = _diff(a, b)
+    return {p: c for p, c in d.items() if not ((p not in a and new_private(p, a)) or (p not in b and new_private(p, b)))}
 
 
 def value_hash(root, skip_hidden=True):
